@@ -290,4 +290,391 @@ theorem mem_sendList (a b : Replica) (e : SOp) :
     e ∈ sendList a b ↔ ∃ au rs, (au, rs) ∈ needs a b ∧ ∃ l r, (l, r) ∈ rs ∧ e ∈ selectLog a.store au l r := by
   simp only [sendList, List.mem_flatMap, Prod.exists]
 
+/-! ### what a replica announces -/
+
+theorem lookup_filterMap_keyed {β : Type} (ks : List Nat) (f : Nat → Option β) (k : Nat) :
+    (ks.filterMap fun x => (f x).map fun v => (x, v)).lookup k = if k ∈ ks then f k else none := by
+  induction ks with
+  | nil => simp
+  | cons x xs ih =>
+    simp only [List.filterMap_cons]
+    cases hfx : f x with
+    | none =>
+      simp only [Option.map_none, ih, List.mem_cons]
+      by_cases hk : k = x
+      · subst hk; simp [hfx]
+      · simp [hk]
+    | some v =>
+      simp only [Option.map_some, List.lookup_cons, List.mem_cons]
+      by_cases hk : k = x
+      · subst hk; simp [hfx]
+      · have : (k == x) = false := by simpa using hk
+        simp [this, ih, hk]
+
+theorem lookup_getHeights {store : List SOp} {a : Nat} {logs : List Nat} {m : LogMap}
+    (hm : getHeights store a logs = some m) (l : Nat) :
+    m.lookup l = if l ∈ logs then maxSeq store a l else none := by
+  unfold getHeights at hm
+  simp only at hm
+  split at hm
+  · simp at hm
+  · simp only [Option.some.injEq] at hm
+    subst hm
+    rw [lookup_filterMap_keyed]
+    simp [mem_sortDedup]
+
+theorem getHeights_none {store : List SOp} {a : Nat} {logs : List Nat}
+    (hm : getHeights store a logs = none) (l : Nat) (hl : l ∈ logs) : maxSeq store a l = none := by
+  cases h : maxSeq store a l with
+  | none => rfl
+  | some x =>
+    obtain ⟨m, hm'⟩ := getHeights_isSome hl h
+    rw [hm] at hm'; simp at hm'
+
+theorem lookup_haveOf_aux (store : List SOp) (scope : List (Nat × List Nat)) (au : Nat)
+    (hnd : (scope.map (·.1)).Nodup) :
+    (scope.filterMap fun al => (getHeights store al.1 al.2).map fun m => (al.1, m)).lookup au =
+      match scope.lookup au with
+      | none => none
+      | some logs => getHeights store au logs := by
+  induction scope with
+  | nil => simp
+  | cons x xs ih =>
+    obtain ⟨a', logs'⟩ := x
+    simp only [List.map_cons, List.nodup_cons] at hnd
+    simp only [List.filterMap_cons, List.lookup_cons]
+    by_cases hk : au = a'
+    · subst hk
+      simp only [beq_self_eq_true]
+      cases hg : getHeights store au logs' with
+      | some m => simp
+      | none =>
+        simp only [Option.map_none]
+        rw [ih hnd.2]
+        -- `au` does not occur again
+        have : xs.lookup au = none := by
+          cases h : xs.lookup au with
+          | none => rfl
+          | some v =>
+            have := lookup_some_mem _ _ _ h
+            exact absurd (List.mem_map.mpr ⟨(au, v), this, rfl⟩) hnd.1
+        simp [this]
+    · have hb : (au == a') = false := by simpa using hk
+      simp only [hb]
+      cases hg : getHeights store a' logs' with
+      | some m => simp [List.lookup_cons, hb, ih hnd.2]
+      | none => simp [ih hnd.2]
+
+theorem lookup_scope_of_mem (scope : List (Nat × List Nat)) (hnd : (scope.map (·.1)).Nodup)
+    (au : Nat) (logs : List Nat) (h : (au, logs) ∈ scope) : scope.lookup au = some logs := by
+  induction scope with
+  | nil => simp at h
+  | cons x xs ih =>
+    obtain ⟨a', logs'⟩ := x
+    simp only [List.map_cons, List.nodup_cons] at hnd
+    rcases List.mem_cons.mp h with heq | hmem
+    · simp only [Prod.mk.injEq] at heq
+      obtain ⟨rfl, rfl⟩ := heq
+      simp [List.lookup_cons]
+    · have hne : au ≠ a' := by
+        intro heq; subst heq
+        exact hnd.1 (List.mem_map.mpr ⟨(au, logs), hmem, rfl⟩)
+      have hb : (au == a') = false := by simpa using hne
+      simp [List.lookup_cons, hb, ih hnd.2 hmem]
+
+/-! ### totals -/
+
+theorem sendList_eq_flat (a b : Replica) :
+    sendList a b = (flattenNeeds (needs a b)).flatMap fun t => selectLog a.store t.1 t.2.1 t.2.2 := by
+  unfold sendList flattenNeeds
+  generalize needs a b = n
+  induction n with
+  | nil => rfl
+  | cons x xs ih =>
+    simp only [List.flatMap_cons, List.flatMap_append, ih]
+    congr 1
+    induction x.2 with
+    | nil => rfl
+    | cons y ys ih2 => simp [List.flatMap_cons, ih2]
+
+theorem foldl_totals (store : List SOp) (ts : List (Nat × Nat × Range)) (acc : Nat × Nat) :
+    ts.foldl (totalsStep store) acc =
+    (acc.1 + (ts.flatMap fun t => selectLog store t.1 t.2.1 t.2.2).length,
+     acc.2 + sumBytes (ts.flatMap fun t => selectLog store t.1 t.2.1 t.2.2)) := by
+  induction ts generalizing acc with
+  | nil => simp [sumBytes]
+  | cons t ts ih =>
+    simp only [List.foldl_cons, List.flatMap_cons, List.length_append]
+    rw [ih]
+    simp only [totalsStep, getSize, sumBytes, List.map_append, List.sum_append]
+    ext <;> simp <;> omega
+
+/-! ### order and uniqueness -/
+
+theorem insSorted_sorted (x : Nat) (l : List Nat) (h : l.Pairwise (· < ·)) :
+    (insSorted x l).Pairwise (· < ·) := by
+  induction l with
+  | nil => simp [insSorted]
+  | cons y ys ih =>
+    simp only [insSorted]
+    rw [List.pairwise_cons] at h
+    split
+    · rename_i hlt
+      refine List.pairwise_cons.mpr ⟨?_, List.pairwise_cons.mpr h⟩
+      intro z hz
+      rcases List.mem_cons.mp hz with rfl | hz
+      · exact hlt
+      · exact Nat.lt_trans hlt (h.1 z hz)
+    · split
+      · exact List.pairwise_cons.mpr h
+      · rename_i h1 h2
+        refine List.pairwise_cons.mpr ⟨?_, ih h.2⟩
+        intro z hz
+        rcases (mem_insSorted x z ys).mp hz with rfl | hz
+        · omega
+        · exact h.1 z hz
+
+theorem sortDedup_sorted (l : List Nat) : (sortDedup l).Pairwise (· < ·) := by
+  induction l with
+  | nil => simp [sortDedup]
+  | cons x xs ih => exact insSorted_sorted x _ ih
+
+theorem insBySeq_sorted (e : SOp) (l : List SOp) (h : l.Pairwise (fun x y => x.s ≤ y.s)) :
+    (insBySeq e l).Pairwise (fun x y => x.s ≤ y.s) := by
+  induction l with
+  | nil => simp [insBySeq]
+  | cons y ys ih =>
+    simp only [insBySeq]
+    rw [List.pairwise_cons] at h
+    split
+    · rename_i hle
+      refine List.pairwise_cons.mpr ⟨?_, List.pairwise_cons.mpr h⟩
+      intro z hz
+      rcases List.mem_cons.mp hz with rfl | hz
+      · exact hle
+      · exact Nat.le_trans hle (h.1 z hz)
+    · rename_i hnle
+      refine List.pairwise_cons.mpr ⟨?_, ih h.2⟩
+      intro z hz
+      rcases (mem_insBySeq e z ys).mp hz with rfl | hz
+      · omega
+      · exact h.1 z hz
+
+theorem sortBySeq_sorted (l : List SOp) : (sortBySeq l).Pairwise (fun x y => x.s ≤ y.s) := by
+  induction l with
+  | nil => simp [sortBySeq]
+  | cons x xs ih => exact insBySeq_sorted x _ ih
+
+theorem insBySeq_nodup (e : SOp) (l : List SOp) (he : e ∉ l) (h : l.Nodup) : (insBySeq e l).Nodup := by
+  induction l with
+  | nil => simp [insBySeq]
+  | cons y ys ih =>
+    simp only [insBySeq]
+    have hy := List.nodup_cons.mp h
+    split
+    · exact List.nodup_cons.mpr ⟨he, h⟩
+    · refine List.nodup_cons.mpr ⟨?_, ih (fun hm => he (List.mem_cons_of_mem _ hm)) hy.2⟩
+      intro hm
+      rcases (mem_insBySeq e y ys).mp hm with rfl | hm
+      · exact he (by simp)
+      · exact hy.1 hm
+
+theorem sortBySeq_nodup (l : List SOp) (h : l.Nodup) : (sortBySeq l).Nodup := by
+  induction l with
+  | nil => simp [sortBySeq]
+  | cons x xs ih =>
+    have hx := List.nodup_cons.mp h
+    exact insBySeq_nodup x _ (fun hm => hx.1 ((mem_sortBySeq x xs).mp hm)) (ih hx.2)
+
+/-- stored rows are distinct and `(author, log, seq)` names one operation -/
+def ValidStore (st : List SOp) : Prop :=
+  st.Nodup ∧ ∀ x ∈ st, ∀ y ∈ st, x.a = y.a → x.l = y.l → x.s = y.s → x = y
+
+/-- the order relation of the property: different operations, ascending within a log -/
+def Before (x y : SOp) : Prop := x ≠ y ∧ (x.a = y.a → x.l = y.l → x.s < y.s)
+
+theorem selectLog_before (store : List SOp) (hv : ValidStore store) (a l : Nat) (r : Range) :
+    (selectLog store a l r).Pairwise Before := by
+  have hs := sortBySeq_sorted (store.filter fun e => e.a = a && e.l = l && inRange r e.s)
+  have hn := sortBySeq_nodup _ (hv.1.filter fun e => e.a = a && e.l = l && inRange r e.s)
+  have hboth := hs.and (List.nodup_iff_pairwise_ne.mp hn)
+  refine List.Pairwise.imp_of_mem ?_ hboth
+  intro x y hx hy hxy
+  have hx' := (mem_selectLog store a l r x).mp hx
+  have hy' := (mem_selectLog store a l r y).mp hy
+  refine ⟨hxy.2, fun _ _ => ?_⟩
+  have hne : x.s ≠ y.s := by
+    intro heq
+    exact hxy.2 (hv.2 x hx'.1 y hy'.1 (by rw [hx'.2.1, hy'.2.1]) (by rw [hx'.2.2.1, hy'.2.2.1]) heq)
+  have := hxy.1
+  omega
+
+theorem getHeights_keys {store : List SOp} {a : Nat} {logs : List Nat} {m : LogMap}
+    (hm : getHeights store a logs = some m) : m.Pairwise (fun p q => p.1 ≠ q.1) := by
+  unfold getHeights at hm
+  simp only at hm
+  split at hm
+  · simp at hm
+  · simp only [Option.some.injEq] at hm
+    subst hm
+    refine List.Pairwise.filterMap _ ?_ (sortDedup_sorted logs)
+    intro x y hxy p hp q hq
+    simp only [Option.map_eq_some_iff] at hp hq
+    obtain ⟨_, _, rfl⟩ := hp
+    obtain ⟨_, _, rfl⟩ := hq
+    simp only [ne_eq]
+    omega
+
+theorem needsOfAuthor_keys (m rl : LogMap) (hm : m.Pairwise (fun p q => p.1 ≠ q.1)) :
+    (needsOfAuthor m rl).Pairwise (fun p q => p.1 ≠ q.1) := by
+  unfold needsOfAuthor
+  refine List.Pairwise.filterMap _ ?_ hm
+  intro x y hxy p hp q hq
+  have hp1 : p.1 = x.1 := by
+    split at hp
+    · simp at hp; rw [← hp]
+    · split at hp
+      · simp at hp; rw [← hp]
+      · simp at hp
+  have hq1 : q.1 = y.1 := by
+    split at hq
+    · simp at hq; rw [← hq]
+    · split at hq
+      · simp at hq; rw [← hq]
+      · simp at hq
+  rw [hp1, hq1]; exact hxy
+
+theorem haveOf_keys (r : Replica) (hs : (r.scope.map (·.1)).Nodup) :
+    (haveOf r).Pairwise (fun p q => p.1 ≠ q.1) := by
+  unfold haveOf
+  have hsc : r.scope.Pairwise (fun p q => p.1 ≠ q.1) := by
+    have := List.nodup_iff_pairwise_ne.mp hs
+    exact List.pairwise_map.mp this
+  refine List.Pairwise.filterMap _ ?_ hsc
+  intro x y hxy p hp q hq
+  simp only [Option.map_eq_some_iff] at hp hq
+  obtain ⟨_, _, rfl⟩ := hp
+  obtain ⟨_, _, rfl⟩ := hq
+  exact hxy
+
+theorem compare_keys (loc rem : Heights) (hl : loc.Pairwise (fun p q => p.1 ≠ q.1)) :
+    (Sync.compare loc rem).Pairwise (fun p q => p.1 ≠ q.1) := by
+  unfold Sync.compare
+  refine List.Pairwise.filterMap _ ?_ hl
+  intro x y hxy p hp q hq
+  have hp1 : p.1 = x.1 := by
+    split at hp
+    · simp at hp; rw [← hp]
+    · split at hp
+      · simp at hp
+      · simp only at hp
+        split at hp
+        · simp at hp
+        · simp at hp; rw [← hp]
+  have hq1 : q.1 = y.1 := by
+    split at hq
+    · simp at hq; rw [← hq]
+    · split at hq
+      · simp at hq
+      · simp only at hq
+        split at hq
+        · simp at hq
+        · simp at hq; rw [← hq]
+  rw [hp1, hq1]; exact hxy
+
+/-! ### de-duplication of pairwise different operations, ingest -/
+
+theorem insert_fresh (s : Dedup.Buf Nat) (x : Nat) (h : x ∉ s.set) :
+    (s.insert x).2 = true ∧ ∀ y ∈ (s.insert x).1.set, y = x ∨ y ∈ s.set := by
+  unfold Dedup.Buf.insert
+  simp only [h, if_false, true_and]
+  intro y hy
+  simp only [List.mem_cons] at hy
+  rcases hy with rfl | hy
+  · exact Or.inl rfl
+  · right
+    split at hy
+    · split at hy
+      · exact List.mem_of_mem_erase hy
+      · exact hy
+    · exact hy
+
+theorem dedupFilter_fresh (buf : Dedup.Buf Nat) (l : List SOp) (hn : (l.map (·.id)).Nodup)
+    (hd : ∀ e ∈ l, e.id ∉ buf.set) : dedupFilter buf l = l := by
+  induction l generalizing buf with
+  | nil => rfl
+  | cons e es ih =>
+    simp only [List.map_cons, List.nodup_cons] at hn
+    have hf := insert_fresh buf e.id (hd e (by simp))
+    simp only [dedupFilter, hf.1, if_true]
+    congr 1
+    apply ih _ hn.2
+    intro x hx hmem
+    rcases hf.2 _ hmem with h | h
+    · exact hn.1 (List.mem_map.mpr ⟨x, hx, h⟩)
+    · exact hd x (List.mem_cons_of_mem _ hx) h
+
+theorem mem_ingest (st ops : List SOp)
+    (hid : ∀ x, x ∈ st ∨ x ∈ ops → ∀ y, y ∈ st ∨ y ∈ ops → x.id = y.id → x = y) (z : SOp) :
+    z ∈ ingest st ops ↔ z ∈ st ∨ z ∈ ops := by
+  unfold ingest
+  induction ops generalizing st with
+  | nil => simp
+  | cons e es ih =>
+    simp only [List.foldl_cons]
+    split
+    · rename_i hany
+      simp only [List.any_eq_true, decide_eq_true_eq] at hany
+      obtain ⟨x, hx, hxe⟩ := hany
+      have hex : x = e := hid x (Or.inl hx) e (Or.inr (by simp)) hxe
+      subst hex
+      rw [ih st (fun p hp q hq => hid p (hp.imp id (List.mem_cons_of_mem _)) q (hq.imp id (List.mem_cons_of_mem _)))]
+      constructor
+      · rintro (h | h)
+        · exact Or.inl h
+        · exact Or.inr (List.mem_cons_of_mem _ h)
+      · rintro (h | h)
+        · exact Or.inl h
+        · rcases List.mem_cons.mp h with rfl | h
+          · exact Or.inl hx
+          · exact Or.inr h
+    · rw [ih (st ++ [e])]
+      · simp only [List.mem_append, List.mem_cons, List.not_mem_nil, or_false]
+        constructor
+        · rintro ((h | h) | h)
+          · exact Or.inl h
+          · exact Or.inr (Or.inl h)
+          · exact Or.inr (Or.inr h)
+        · rintro (h | h | h)
+          · exact Or.inl (Or.inl h)
+          · exact Or.inl (Or.inr h)
+          · exact Or.inr h
+      · intro p hp q hq
+        apply hid
+        · simp only [List.mem_append, List.mem_singleton] at hp
+          rcases hp with (hp | rfl) | hp
+          · exact Or.inl hp
+          · exact Or.inr (by simp)
+          · exact Or.inr (List.mem_cons_of_mem _ hp)
+        · simp only [List.mem_append, List.mem_singleton] at hq
+          rcases hq with (hq | rfl) | hq
+          · exact Or.inl hq
+          · exact Or.inr (by simp)
+          · exact Or.inr (List.mem_cons_of_mem _ hq)
+
+/-- `maxSeq` only depends on which rows are present -/
+theorem maxSeq_congr (s1 s2 : List SOp) (a l : Nat)
+    (h : ∀ x, x.a = a → x.l = l → (x ∈ s1 ↔ x ∈ s2)) : maxSeq s1 a l = maxSeq s2 a l := by
+  cases h1 : maxSeq s1 a l with
+  | none =>
+    symm
+    rw [maxSeq_none] at h1 ⊢
+    intro e he hk
+    exact h1 e ((h e hk.1 hk.2).mpr he) hk
+  | some v =>
+    symm
+    rw [maxSeq_some] at h1 ⊢
+    obtain ⟨⟨e, he, ha, hl, hs⟩, hmax⟩ := h1
+    exact ⟨⟨e, (h e ha hl).mp he, ha, hl, hs⟩, fun x hx hxa hxl => hmax x ((h x hxa hxl).mpr hx) hxa hxl⟩
+
 end P2.C19
